@@ -4,6 +4,7 @@ package main
 // models, on random and boundary inputs.
 
 import (
+	"encoding/hex"
 	"fmt"
 	"strings"
 
@@ -207,6 +208,70 @@ func kernelCases(c *Ctx) {
 			c.Case(fmt.Sprintf("huf %d %d%s", root, bits, sb.String()), got)
 			c.D.Evaluations++
 			c.Count(fmt.Sprintf("kernel:huffman-lut:root%d-maxlen%d", root, maxLen))
+		}
+	}
+
+	// LosslessReader (64-bit window, byte shifting, 4-byte refills, end-of-stream flag) vs its model, on
+	// scripts that stay inside the data, as the decoder's reads of a valid stream do: ReadBits(0..24),
+	// FillBitWindow + PrefetchBits, SetBitPos(BitPos + k) after a fill
+	for i := 0; i < 250*scale; i++ {
+		n := rng.Pick(0, 1, 2, 3, 4, 5, 7, 8, 9, 11, 12, 13, 16, 40)
+		if rng.Intn(3) == 0 {
+			n = rng.Range(0, 64)
+		}
+		data := rng.Bytes(n)
+		total, p := 8*n, 0
+		var ops []int
+		filled := false
+		for k := 0; k < 60; k++ {
+			switch rng.Intn(4) {
+			case 0, 1:
+				b := rng.Range(0, 24)
+				if rng.Intn(4) == 0 {
+					b = rng.Pick(0, 1, 8, 24)
+				}
+				if p+b <= total {
+					ops = append(ops, b)
+					p += b
+					filled = false
+				}
+			case 2:
+				ops = append(ops, -1)
+				filled = true
+			default:
+				b := rng.Range(0, 22)
+				if filled && p+b <= total {
+					ops = append(ops, -100-b)
+					p += b
+					filled = false
+				}
+			}
+		}
+		hx := "-"
+		if n > 0 {
+			hx = hex.EncodeToString(data)
+		}
+		var sb strings.Builder
+		for _, o := range ops {
+			fmt.Fprintf(&sb, " %d", o)
+		}
+		got := guard(func() string {
+			vals, eos := webp.VerifBitioLosslessReaderRun(data, ops)
+			var parts []string
+			for k := range vals {
+				e := 0
+				if eos[k] {
+					e = 1
+				}
+				parts = append(parts, fmt.Sprintf("%d:%d", vals[k], e))
+			}
+			return strings.Join(parts, ",")
+		})
+		c.Case("brd "+hx+sb.String(), got)
+		c.D.Evaluations++
+		c.Count("kernel:lossless-bit-reader-script")
+		if p == total && n > 0 {
+			c.Count("kernel:lossless-bit-reader-script-consumes-every-bit")
 		}
 	}
 
